@@ -10,13 +10,13 @@
 package pump
 
 import (
-	"slices"
 	"bufio"
 	"context"
 	"fmt"
 	"io"
 	"net/netip"
 	"runtime/debug"
+	"slices"
 	"strings"
 	"sync"
 
@@ -30,23 +30,54 @@ import (
 )
 
 type PP struct {
-	P         *peer.Peer
-	N         int
-	mu        sync.Mutex
-	torEvents chan peer.TorEvent
-	writer    chan protocol.Message
-	wdone     chan struct{}
-	stop      chan struct{}
-	Alive     bool
-	Sent      []protocol.Message // what storrent wrote to this peer since the last TakeSent
-	sentMu    sync.Mutex
-	panicked  string
-	conn      *segconn.End
-	w         *World
-	hold      chan struct{} // non-nil while the harness plays a remote that does not read
-	holdReq   chan struct{}
+	P          *peer.Peer
+	N          int
+	mu         sync.Mutex
+	torEvents  chan peer.TorEvent
+	writer     chan protocol.Message
+	wdone      chan struct{}
+	stop       chan struct{}
+	Alive      bool
+	Sent       []protocol.Message // what storrent wrote to this peer since the last TakeSent
+	sentMu     sync.Mutex
+	panicked   string
+	conn       *segconn.End
+	w          *World
+	hold       chan struct{} // non-nil while the harness plays a remote that does not read
+	holdReq    chan struct{}
 	mu2        sync.Mutex
 	writePanic string
+	gateMu     sync.Mutex
+	gate       chan struct{} // non-nil while the peer's goroutine is not scheduled (PauseMailbox)
+	pauseReq   chan chan struct{}
+}
+
+// PauseMailbox stops the peer's goroutine from taking commands out of its
+// mailbox (a goroutine that is not scheduled for a while): what the torrent
+// sends piles up, up to the mailbox's capacity.  It returns when the
+// goroutine has finished what it was handling.  ResumeMailbox undoes it.
+func (pp *PP) PauseMailbox() {
+	pp.gateMu.Lock()
+	if pp.gate != nil {
+		pp.gateMu.Unlock()
+		return
+	}
+	g := make(chan struct{})
+	pp.gate = g
+	pp.gateMu.Unlock()
+	select {
+	case pp.pauseReq <- g:
+	case <-pp.stop:
+	}
+}
+
+func (pp *PP) ResumeMailbox() {
+	pp.gateMu.Lock()
+	if pp.gate != nil {
+		close(pp.gate)
+		pp.gate = nil
+	}
+	pp.gateMu.Unlock()
 }
 
 // WriterCap is the capacity of the channel between a peer and its writer
@@ -85,6 +116,9 @@ type World struct {
 	// ReverseCollect: events of different peers that are in transit at the same
 	// time reach the torrent in the opposite order (last peer first)
 	ReverseCollect bool
+	// NextAddr, when valid, is the address of the next peer added (then reset);
+	// LastAddr is the address the last added peer got
+	NextAddr, LastAddr netip.AddrPort
 }
 
 type Caps struct {
@@ -120,6 +154,32 @@ func (w *World) AddPeer(caps Caps, incoming bool) *PP {
 	id := make([]byte, 20)
 	copy(id, fmt.Sprintf("-VF0001-pumped%06d", n))
 	addr := netip.AddrPortFrom(netip.AddrFrom4([4]byte{8, 9, byte(n >> 8), byte(n)}), uint16(30000+n))
+	if w.NextAddr.IsValid() {
+		// a peer that comes back from the address of an earlier one
+		addr, w.NextAddr = w.NextAddr, netip.AddrPort{}
+	} else {
+		w.assign(&addr, caps, n)
+	}
+	w.LastAddr = addr
+	res := protocol.HandshakeResult{Hash: w.T.Hash, Id: hash.Hash(id), Dht: caps.DHT, Fast: caps.Fast, Extended: caps.Extended}
+	p := peer.New("", a, addr, incoming, res)
+	p.Log.SetOutput(discard{})
+	pp := &PP{P: p, N: n, torEvents: make(chan peer.TorEvent, 1<<16), writer: make(chan protocol.Message, WriterCap), wdone: make(chan struct{}), holdReq: make(chan struct{}), pauseReq: make(chan chan struct{}),
+		stop: make(chan struct{}), Alive: true, conn: a, w: w}
+	var info []byte
+	if w.T.InfoComplete() {
+		info = w.T.Info
+	}
+	tor.VerifAttachPeer(w.T, p)
+	peer.VerifSetup(p, pp.torEvents, w.T.Done, info, w.T.Pieces.Bitmap(), pp.writer, pp.wdone)
+	go pp.drainWriter()
+	go pp.serve()
+	w.Peers = append(w.Peers, pp)
+	return pp
+}
+
+func (w *World) assign(addrp *netip.AddrPort, caps Caps, n int) {
+	addr := *addrp
 	switch caps.AddrClass {
 	case "loopback":
 		addr = netip.AddrPortFrom(netip.AddrFrom4([4]byte{127, 0, 0, byte(n)}), uint16(30000+n))
@@ -132,21 +192,7 @@ func (w *World) AddPeer(caps Caps, incoming bool) *PP {
 	case "v6":
 		addr = netip.AddrPortFrom(netip.MustParseAddr(fmt.Sprintf("2001:db8::%x", n)), uint16(30000+n))
 	}
-	res := protocol.HandshakeResult{Hash: w.T.Hash, Id: hash.Hash(id), Dht: caps.DHT, Fast: caps.Fast, Extended: caps.Extended}
-	p := peer.New("", a, addr, incoming, res)
-	p.Log.SetOutput(discard{})
-	pp := &PP{P: p, N: n, torEvents: make(chan peer.TorEvent, 1<<16), writer: make(chan protocol.Message, WriterCap), wdone: make(chan struct{}), holdReq: make(chan struct{}),
-		stop: make(chan struct{}), Alive: true, conn: a, w: w}
-	var info []byte
-	if w.T.InfoComplete() {
-		info = w.T.Info
-	}
-	tor.VerifAttachPeer(w.T, p)
-	peer.VerifSetup(p, pp.torEvents, w.T.Done, info, w.T.Pieces.Bitmap(), pp.writer, pp.wdone)
-	go pp.drainWriter()
-	go pp.serve()
-	w.Peers = append(w.Peers, pp)
-	return pp
+	*addrp = addr
 }
 
 type discard struct{}
@@ -272,6 +318,12 @@ func (pp *PP) TakeSent() []protocol.Message {
 func (pp *PP) serve() {
 	for {
 		select {
+		case g := <-pp.pauseReq:
+			select {
+			case <-g:
+			case <-pp.stop:
+				return
+			}
 		case e := <-pp.P.Event:
 			if b, ok := e.(barrier); ok {
 				close(b.done)
@@ -449,6 +501,13 @@ type barrier struct{ done chan struct{} }
 
 func (w *World) barrier() {
 	for _, pp := range w.Peers {
+		pp.gateMu.Lock()
+		paused := pp.gate != nil
+		pp.gateMu.Unlock()
+		if paused {
+			// its goroutine is not running: nothing it could be working on
+			continue
+		}
 		b := barrier{make(chan struct{})}
 		select {
 		case pp.P.Event <- b:
